@@ -1,7 +1,7 @@
 (* C17 - every Unicode scalar value: the library's encoding, decoding, counting, indexing and common-prefix computations agree
    with the UTF-8 definitions for EVERY scalar value (no enumeration). Statements only. *)
-From EC Require Import Base Model.Utf8 Model.Utils Model.Input Spec.Utf8Spec Spec.ArgSpec Spec.KeyUnits
-  Proofs.Utf8Proofs Proofs.UtilsProofs Proofs.InputProofs.
+From EC Require Import Base Model.Utf8 Model.Utils Model.Input Model.Args Spec.Utf8Spec Spec.ArgSpec Spec.KeyUnits Spec.QuoteSpec Spec.HistSpec
+  Proofs.Utf8Proofs Proofs.UtilsProofs Proofs.InputProofs Proofs.TokenProofs Proofs.HistoryProofs Proofs.ScalarProofs.
 
 (* encode_utf8 produces the well-formed encoding of the scalar, of the length its range demands, and decoding gives it back *)
 Theorem C17_encode : forall c, scalar c ->
@@ -52,6 +52,23 @@ Proof.
   cbn. split; [|exact I]. unfold compat. cbn. repeat split; intros [? ?]; lia.
 Qed.
 Print Assumptions C17_typed.
+
+(* submitted: for EVERY scalar value other than blank and the double quote (which have their own meaning in the quoting rules) the
+   character on its own is one token - a command name - and after any command word it is one argument, byte for byte *)
+Theorem C17_submitted : forall c, scalar c -> c <> 32 -> c <> 0 -> c <> 34 ->
+  tokens_fun (encode_utf8 c) = [encode_utf8 c] /\
+  forall w, bare w -> tokens_fun (w ++ 32 :: encode_utf8 c) = [w; encode_utf8 c].
+Proof. intros c Hs H1 H2 H3. split; [apply scalar_as_name; assumption|intros w Hw; apply scalar_as_argument; assumption]. Qed.
+Print Assumptions C17_submitted.
+(* used as a short-option character: `-c` is exactly the short option c, for every scalar value but `-` itself (`--` ends option parsing) *)
+Theorem C17_short_option : forall c, scalar c -> c <> 45 -> classify_tok false (45 :: encode_utf8 c) = ([ShortOption c], false).
+Proof. exact scalar_as_short_option. Qed.
+Print Assumptions C17_short_option.
+(* recalled from history: a submitted line consisting of the character is recorded whenever it fits and comes back byte for byte *)
+Theorem C17_recalled : forall c cap, scalar c -> c <> 0 -> (esize (encode_utf8 c) <= cap)%nat ->
+  snd (hs_older (hs_push cap hspec0 (encode_utf8 c))) = Some (encode_utf8 c).
+Proof. exact scalar_recalled. Qed.
+Print Assumptions C17_recalled.
 
 Example C17_nonvacuous :
   scalar 0x10FFFF /\ encode_utf8 0x10FFFF = [0xF4; 0x8F; 0xBF; 0xBF] /\ encode_utf8 0xFFFF = [0xEF; 0xBF; 0xBF] /\ encode_utf8 0x800 = [0xE0; 0xA0; 0x80]
